@@ -96,6 +96,12 @@ def skeleton(e, leaf):
         return "(" + ", ".join(skeleton(x, leaf) for x in e["elems"]) + ")"
     if k == "match":
         return f"match {skeleton(e['scrut'], leaf)} {{..}}"
+    if k == "assign":
+        return f"{skeleton(e['a'], leaf)} = {skeleton(e['b'], leaf)}"
+    if k == "assignop":
+        return f"{skeleton(e['a'], leaf)} {e['op']} {skeleton(e['b'], leaf)}"
+    if k == "index":
+        return f"{skeleton(e['a'], leaf)}[{skeleton(e['i'], leaf)}]"
     if k == "closure":
         return "|" + ",".join(pat_name(p) for p in e["params"]) + "| " + skeleton(e["body"], leaf)
     if k == "field":
